@@ -11,3 +11,26 @@ Definition runVar1tp G ign ms xs ys zs dvx dvy dvz i : list float :=
 Definition runVar2 G ms xs ys zs wm wx wy wz am ax ay az bm bx by_ bz : list float :=
   flat (grav_var2 FNum G (mkps ms xs ys zs) (mkps wm wx wy wz) (mkps am ax ay az) (mkps bm bx by_ bz)).
 Definition p7l (v : @P7 float) : list float := let '(m, x, y, z, vx, vy, vz) := v in [m; x; y; z; vx; vy; vz].
+
+(* ---- reb_simulation_rescale_var *)
+From RV Require Import C16.Rescale.
+Fixpoint unflat6 (l : list float) : list (@P6 float) :=
+  match l with
+  | a :: b :: c :: d :: e :: f :: r => (a, b, c, d, e, f) :: unflat6 r
+  | _ => []
+  end.
+Definition flat6 (ps : list (@P6 float)) : list float :=
+  flat_map (fun p => let '(a, b, c, d, e, f) := p in [a; b; c; d; e; f]) ps.
+(* libm log values supplied by the harness: table scale -> log(scale) *)
+Fixpoint lgtab (tab : list (float * float)) (s : float) : float :=
+  match tab with
+  | [] => PrimFloat.nan
+  | (k, v) :: r => if same k s then v else lgtab r s
+  end.
+Definition b2f (b : bool) : float := if b then PrimFloat.one else PrimFloat.zero.
+(* result: warn1, warn2, recalc, then per configuration lrescale followed by its 6N coordinates *)
+Definition runRescale (big : float) (tab : list (float * float)) (integ : nat) (whs eoss sm w1 w2 rc : bool)
+    (cfgs : list (nat * float * list float)) : list float :=
+  let '(fl, cs) := rescale_all FNum (lgtab tab) big (mkFl integ whs eoss sm w1 w2 rc)
+                     (map (fun q => let '(o, l, ps) := q in mkVC o l (unflat6 ps)) cfgs) in
+  [b2f (warn1 fl); b2f (warn2 fl); b2f (recalc fl)] ++ flat_map (fun c => vc_lres c :: flat6 (vc_ps c)) cs.
